@@ -10,6 +10,10 @@ pub uninterp spec fn lit_bytes(s: Seq<char>) -> Seq<u8>;
 pub open spec fn lit(s: &str) -> Seq<u8> { lit_bytes(s@) }
 // str::replace(pat, to): abstract function of the three texts (all non-overlapping occurrences, left to right: std)
 pub uninterp spec fn spec_replace(s: Seq<u8>, pat: Seq<u8>, to: Seq<u8>) -> Seq<u8>;
+// anything that denotes a text where std takes a `&str` pattern argument (the model value or a reference to it)
+pub trait StrLike { spec fn bytes(&self) -> Seq<u8>; }
+impl StrLike for Str { open spec fn bytes(&self) -> Seq<u8> { self.view() } }
+impl StrLike for &Str { open spec fn bytes(&self) -> Seq<u8> { (**self).view() } }
 impl Str {
     pub uninterp spec fn view(&self) -> Seq<u8>;
     #[verifier::external_body] pub fn len(&self) -> (r: usize) ensures r == self@.len() { unimplemented!() }
@@ -27,9 +31,9 @@ impl Str {
             Some(i) => occurs_at(self@, placeholder(), i as int) && forall|j: int| 0 <= j < i ==> !occurs_at(self@, placeholder(), j),
             None => forall|j: int| !occurs_at(self@, placeholder(), j),
         } { unimplemented!() }
-    #[verifier::external_body] pub fn starts_with(&self, p: Str) -> (r: bool) ensures r == occurs_at(self@, p@, 0) { unimplemented!() }
-    #[verifier::external_body] pub fn ends_with(&self, p: Str) -> (r: bool) ensures r == occurs_at(self@, p@, self@.len() - p@.len()) { unimplemented!() }
-    #[verifier::external_body] pub fn contains(&self, p: Str) -> (r: bool) ensures r == (exists|i: int| occurs_at(self@, p@, i)) { unimplemented!() }
+    #[verifier::external_body] pub fn starts_with<P: StrLike>(&self, p: P) -> (r: bool) ensures r == occurs_at(self@, p.bytes(), 0) { unimplemented!() }
+    #[verifier::external_body] pub fn ends_with<P: StrLike>(&self, p: P) -> (r: bool) ensures r == occurs_at(self@, p.bytes(), self@.len() - p.bytes().len()) { unimplemented!() }
+    #[verifier::external_body] pub fn contains<P: StrLike>(&self, p: P) -> (r: bool) ensures r == (exists|i: int| occurs_at(self@, p.bytes(), i)) { unimplemented!() }
     // String::from(&str) / Cow::from(&String) / .into() / .to_string() between string types: same text (the model value IS the text)
     #[verifier::external_body] pub fn conv(&self) -> (r: Str) ensures r == *self { unimplemented!() }
     #[verifier::external_body] pub fn to_string(&self) -> (r: Str) ensures r == *self { unimplemented!() }
@@ -45,7 +49,7 @@ impl Str {
     #[verifier::external_body] pub fn ends_with_lit(&self, s: &str) -> (r: bool) ensures r == occurs_at(self@, lit(s), self@.len() - lit(s).len()) { unimplemented!() }
     // str::replace
     #[verifier::external_body] pub fn replace_lit(&self, pat: &str, to: &str) -> (r: Str) ensures r@ == spec_replace(self@, lit(pat), lit(to)) { unimplemented!() }
-    #[verifier::external_body] pub fn replace(&self, pat: Str, to: &str) -> (r: Str) ensures r@ == spec_replace(self@, pat@, lit(to)) { unimplemented!() }
+    #[verifier::external_body] pub fn replace<P: StrLike>(&self, pat: P, to: &str) -> (r: Str) ensures r@ == spec_replace(self@, pat.bytes(), lit(to)) { unimplemented!() }
     // str::strip_prefix
     #[verifier::external_body] pub fn strip_prefix(&self, p: Str) -> (r: Option<Str>)
         ensures match r { Some(t) => occurs_at(self@, p@, 0) && t@ == self@.subrange(p@.len() as int, self@.len() as int), None => !occurs_at(self@, p@, 0) } { unimplemented!() }
@@ -54,9 +58,12 @@ impl Str {
 }
     // str::split_once("<literal>")
 impl Str {
-    #[verifier::external_body] pub fn split_once_lit(&self, d: &str) -> (r: Option<(Str, Str)>)
-        ensures r == spec_split_once(*self, lit(d)),
-          match r { Some(p) => self@ == p.0@ + lit(d) + p.1@ && (forall|i: int| 0 <= i < p.0@.len() ==> !occurs_at(self@, lit(d), i)), None => forall|i: int| !occurs_at(self@, lit(d), i) } { unimplemented!() }
+    // yields references, like std (the pieces are used where a `&str` is expected)
+    #[verifier::external_body] pub fn split_once_lit<'a>(&'a self, d: &str) -> (r: Option<(&'a Str, &'a Str)>)
+        ensures match (r, spec_split_once(*self, lit(d))) { (Some(p), Some(q)) => *p.0 == q.0 && *p.1 == q.1, (None, None) => true, _ => false },
+          match spec_split_once(*self, lit(d)) {
+              Some(q) => self@ == q.0@ + lit(d) + q.1@ && (forall|i: int| 0 <= i < q.0@.len() ==> !occurs_at(self@, lit(d), i)),
+              None => forall|i: int| !occurs_at(self@, lit(d), i) } { unimplemented!() }
 }
 pub uninterp spec fn spec_split_once(s: Str, d: Seq<u8>) -> Option<(Str, Str)>;
 // str::split("<literal>") consumed by `.skip(n).collect::<String>()`: the segments as a vector, and the concatenation of a suffix of them
